@@ -5,5 +5,6 @@ CONSTANTS
   MaxPairs = 0
   Known = {}
   Emit = FALSE
+  ColumnLess = FALSE
 INVARIANT Report
 CHECK_DEADLOCK FALSE
